@@ -12,6 +12,8 @@ claimed={
  "C05":("exploration","§3 C05","reference liquidation spec: eligibility, health improvement, no flips, liquidator health, 95/97.5/2.5 split incl. insurance whole/fraction, on main timeline and on boundary forks"),
  "C06":("exploration","§3 C06","accrual monotonicity/conservation/curve agreement on every observed accrual plus fork differential 'tx == accrue; tx' for every handler kind and idempotence of accrual"),
  "C07":("exploration","§3 C07","reference bankruptcy spec in the insured/partial/uninsured/wiped regimes, entitlement of the signer, depositor share invariance, killed-state permanence over the whole history"),
+ "C08":("fault_enumeration","§3 C08","exhaustive single-mutation sweep (on forks) of every sampled accepted transaction against a hand-written binding table: every role signer unsigned and re-signed by every identity, every bound slot replaced by every applicable foreign twin; exception paths (frozen account, receivership, permissionless bankruptcy) recognised by an independent entitlement predicate"),
+ "C09":("fault_enumeration","§3 C09","oracle fault injection (28 fault kinds x role of the faulted bank) with the real price adapter executed on forks after every oracle write and clock advance: verdict and value compared with the reference; decisions that depended on a price are judged with unusable collateral at zero and unusable debt prices as fatal"),
  "C10":("exploration","§3 C10","reference acceptor for receivership transaction shapes (start first after whitelisted prefix, single, matching end last for the same account, only withdraw/repay in between, start/end not via CPI) plus end-state inequalities on the reference model (unhealthy at start, not worse and not positive at end, premium bound, no zero-weight/zero-price seizure, markers never survive)"),
  "C11":("exploration","§3 C11","flash-loan bracket: flag never survives a committed transaction, every flagged account is initially healthy at commit by the reference engine, the named end is a later matching end not under CPI, flagged accounts are never liquidated/settled, forbidden account states never start"),
  "C12":("exploration","§3 C12","field-level byte diff of every successful admin instruction against the role's allowed-write mask, frozen-bank masks, freeze permanence over the whole history, deleverage bracket acceptor and daily window accounting"),
@@ -19,6 +21,7 @@ claimed={
  "C14":("exploration","§3 C14","verdict table instruction kind x bank state x cached-pause region; state-level reading: while the cached pause is in force no vault balance or position of the group changes; refusals for a pause that is not in force are violations"),
  "C15":("exploration","§3 C15","adversarial fee-admin pause game under simulated time with boundary-targeted clocks; bounds on until, counters and resets after every step; bounded-liveness canary deposits on forks at cached expiry -1/0 and now+3600"),
  "C16":("exploration","§3 C16","structural invariants of every changed user account after every instruction plus history checks (tag permanence, transfer once, close preconditions, disabled accounts)"),
+ "C19":("exploration","§3 C19","exact (rational) fee-collection arithmetic and bucket deltas, canonical recomputation of every destination, sanctioned-door check for every draw-down of fee / insurance / emissions vaults, emissions conservation and proportional accrual"),
  "C17":("exploration","§3 C17","cap and utilisation post-conditions after every deposit/borrow/withdraw; 'up to limit never fails for capacity'; capacity +-2 probes on forks"),
 }
 checks=[]
